@@ -80,6 +80,15 @@ theorem wfseg_trans (segs : List Seg)
 def PathOk (segs : List Seg) : Prop :=
   ∀ s ∈ segs, (s.1 = 1 ∨ s.1 = 2) ∧ 1 ≤ s.2.length ∧ s.2.length ≤ 255 ∧ ∀ a ∈ s.2, U32 a
 
+/-- A path of AS_SET and AS_SEQUENCE segments is sent whole in the AS4_PATH. -/
+theorem plainSegs_of_PathOk (segs : List Seg) (h : PathOk segs) : plainSegs segs = segs := by
+  unfold plainSegs
+  apply List.filter_eq_self.2
+  intro s hs
+  rcases (h s hs).1 with h1 | h2
+  · simp [h1]
+  · simp [h2]
+
 theorem prewf_semAsPath (p : SessParams) (segs : List Seg) (h : PathOk segs) :
     ∀ a ∈ semAsPath p segs, PreWF (paramsOf p) a := by
   unfold semAsPath
@@ -103,7 +112,7 @@ theorem prewf_semAsPath (p : SessParams) (segs : List Seg) (h : PathOk segs) :
       · simp only [List.mem_singleton] at ha
         subst ha
         refine prewf_mk _ _ _ _ rfl ?_
-        intro s hs; exact wfseg_true s (h s hs)
+        intro s hs; exact wfseg_true s (h s (List.mem_filter.mp hs).1)
       · cases ha
 
 theorem prewf_semAggregator (p : SessParams) (asn ip : Nat) (h1 : U32 asn) (h2 : U32 ip) :
